@@ -170,7 +170,7 @@ def tasks():
     from spec import cvss4_spec as S4
 
     rng = random.Random(C.seed())
-    n = 12 if C.tier() == "quick" else 600
+    n = 8 if C.tier() == "quick" else 600
     # only (fork, step) cases in which the step can start inside the macrovector
     cases = [(f, st) for f in forks for st in steps if step_feasible(f, st[0], st[1])]
     for f, st in rng.sample(cases, n):
@@ -184,7 +184,7 @@ def tasks():
 
 def bounds():
     if C.tier() == "quick":
-        return ["v4: the table lemma on all 270 lookup entries (complete); product execution only for a seeded sample of 12 (macrovector fork, metric step) cases of the feasible ones among 270 x 31 (large macrovectors further restricted to one value of the EQ4 severity distance) - one such run costs minutes in this engine, so complete v4 coverage by product execution is NOT claimed"]
+        return ["v4: the table lemma on all 270 lookup entries (complete); product execution only for a seeded sample of 8 (macrovector fork, metric step) cases of the feasible ones among 270 x 31 (large macrovectors further restricted to one value of the EQ4 severity distance) - one such run costs minutes in this engine, so complete v4 coverage by product execution is NOT claimed"]
     return ["v4: the table lemma on all 270 lookup entries (complete); product execution for a seeded sample of 600 (macrovector fork, metric step) cases of the feasible ones among 270 x 31 (large macrovectors further restricted to one value of the EQ4 severity distance): complete v4 coverage by product execution is NOT claimed"]
 
 
